@@ -312,8 +312,20 @@ def search_roles(b, res):
     h = heads[0]
     back = set(b.back_edges())
     ins = [p for p in b.pred[h] if (p, h) not in back and p in res.env_out]
+    # a loop-carried variable is assigned before the loop and again inside it; a local assigned only inside (`let node = if .. { a } else { b }`) is not one
+    loop = set()
+    for e_ in back:
+        loop |= set(b.natural_loop(e_))
+    where = {}
+    for bi, blk in enumerate(b.blocks):
+        for st in blk["stmts"]:
+            if not st["place"]["proj"]:
+                where.setdefault(st["place"]["l"], set()).add(bi in loop)
+        t = blk["term"]
+        if t["k"] == "call" and not t["dest"]["proj"]:
+            where.setdefault(t["dest"]["l"], set()).add(t.get("ret") in loop if t.get("ret") is not None else bi in loop)
     for i, l in enumerate(b.locals):
-        if not l["name"] or cnt[i] < 2 or i <= b.nargs:
+        if not l["name"] or cnt[i] < 2 or i <= b.nargs or where.get(i) != {True, False}:
             continue
         ty = l["ty"]
         if ty.startswith("&") and re.search(r"(Atomic<u64>|UnsafeCell<u64>)$", ty):
